@@ -56,7 +56,14 @@ func (e *Enc) applyContractVars(x ssa.Value, name string, fc *FuncC, vars map[st
 	e.oblCtr["callsite:"+name]++
 	site := fmt.Sprintf("call:%s@%d", name, e.oblCtr["callsite:"+name])
 	for k, rq := range fc.Req {
-		e.oblige("pre", fmt.Sprintf("%s #%d %s", site, k+1, rq.Text), append(append([]string{}, e.panicTags...), rq.Tags...), cpre.evalBool(rq.E), pos)
+		cj := e.p.conjuncts(rq.E, deepSplit)
+		for j, cx := range cj {
+			label := fmt.Sprintf("%s #%d %s", site, k+1, rq.Text)
+			if len(cj) > 1 {
+				label = fmt.Sprintf("%s #%d.%d %s", site, k+1, j+1, exprString(cx))
+			}
+			e.oblige("pre", label, append(append([]string{}, e.panicTags...), rq.Tags...), cpre.evalBool(cx), pos)
+		}
 	}
 	// frame: the callee's modifies must be inside ours; then havoc
 	var mods []modRef
